@@ -102,7 +102,8 @@ class C06(Prop):
         for d, w in zip(decls, words):
             k = d["kind"]
             grp = d["set"] if d["set"] is not None else dflt
-            bindable = k == "c" or (k.startswith("o:") and not (d["ss"] and not spec["ss_slots"]))
+            # only globals provided from outside the shader (storage class extern) are bound
+            bindable = k == "c" or (k.startswith("o:") and d["ext"] and not (d["ss"] and not spec["ss_slots"]))
             if not bindable:
                 if w != "-":
                     return "declaration %s takes no slot but got %s" % (k, w)
@@ -1243,4 +1244,38 @@ class C17(Prop):
         return impl.startswith("OK ") or impl.startswith("SAME")
 
 
-PROPS = {p.id: p for p in [C06(), C19(), C11(), C16(), C13(), C10(), C15(), C09(), C12(), C14(), C07(), C17()]}
+
+# ---------------------------------------------------------------------------
+# C05: reflection metadata agrees with the emitted source
+# ---------------------------------------------------------------------------
+class C05(Prop):
+    id = "C05"
+    gens = ["GenBindings"]
+    header = 9
+    n_quick = 1200
+    n_thorough = 30000
+    design_ref = "DESIGN.md §4 C05"
+    assumptions = [
+        "proved on the slot-assignment model of C06: which declarations have a binding record, and the shape of the inline descriptor struct; that the annotation printers and the metadata builders read that one record is checked on the implementation output, not proved",
+        "oracle tools/c05ref.py parses the emitted HLSL (register(..), [[vk::binding(..)]], [[vk::offset(..)]] members, numthreads) and MSL (ArgumentBufferN members with [[id(n)]]) and compares name, group, slot/offset, descriptor type, count, entry points, thread-group size and (Metal) usage against the metadata",
+        "programs: 0-7 resource globals of all object kinds, arrays, bindless arrays, bind-group attributes, cbuffers, static samplers, static globals, an entry point with a helper function each mentioning a random subset of the globals, entry names that are reserved words of a target, one or two pipelines, {all, by name, no-pipeline} x four target configurations",
+    ]
+
+    def kind(self, case):
+        w = case.split()
+        return "%s %s decls=%d" % (w[0], w[2], max(0, len(w) - 9))
+
+    def comparable(self, case, impl, model):
+        return False
+
+    def oracle(self, case, impl, model=None):
+        if impl.startswith("PANIC") or impl.startswith("TIMEOUT"):
+            return "compile aborted: " + impl[:200]
+        import c05ref
+        return c05ref.check(case, impl)
+
+    def nontrivial(self, case, impl):
+        return impl.startswith("OK") and len(case.split()) > 10
+
+
+PROPS = {p.id: p for p in [C06(), C19(), C11(), C16(), C13(), C10(), C15(), C09(), C12(), C14(), C07(), C17(), C05()]}
